@@ -10,6 +10,15 @@ Monitors
   progress  every transfer finishes within T_v virtual seconds while the sinks consume
   state     after every open / close / shutdown step: DLC tables and DLC / multiplexer states
             are the same on both ends; bumble's own credit counters agree with the wire ledger
+  refusal   an operation that is refused (open_dlc answered with DM, a second open_dlc while one is in
+            flight, disconnect() of a closed DLC) ends with an error, leaves both multiplexers CONNECTED
+            with equal DLC tables that do not list the refused DLCI, and the next use of the SAME
+            multiplexer works: open_dlc to a listening channel succeeds and carries data both ways with a
+            consistent credit ledger, live DLCs keep working, an orderly teardown sends DISC on DLCI 0 and
+            ends with both multiplexers DISCONNECTED, a second multiplexer on the ACL starts clean.
+            HFP: after the SLC, commands the AG must refuse (unknown command, operation / index / indicator
+            out of every range) raise at the HF, leave no pending command or queued result code behind,
+            and the command after an error final code gets its own answer
   slc       HfProtocol.initiate_slc against AgProtocol over such a DLC for enumerated and random
             feature / indicator / codec / call-hold configurations: completes, and both ends
             hold what the configurations imply (computed here, not by bumble)
@@ -35,6 +44,10 @@ RULE = ('seeded cases; RFCOMM transfer cases over (N1 and initial credits per si
         '1-4 DLCs, write-size pattern per direction, ACL geometry, delays) are non-trivial when a ledger touched zero '
         'or a frame was sent at the size limit or a credit-only frame was needed; lifecycle cases enumerate '
         '(number of DLCs, close order permutation, which end closes each, reopen) and are distinct by that tuple; '
+        'refusal cases enumerate 11 written scripts + seeded random ones (open_dlc to a channel nobody listens on = DM, '
+        'several in a row, between live DLCs and closes, a second open_dlc while one is in flight, disconnect() of a '
+        'closed DLC, a service that appears after its refusal) x 3 endings (Client.shutdown, Multiplexer.disconnect, '
+        'shutdown + second multiplexer on the same ACL) and are distinct by (script, ending, steps); '
         'SLC cases enumerate all 64 settings of the six feature bits the procedure branches on, the other bits and '
         'the lists drawn from boundary sets, distinct by configuration pair; AT cases are distinct by command line')
 ASSUMPTIONS = [
@@ -49,10 +62,16 @@ ASSUMPTIONS = [
 MIN_EVENTS = {
     'quick': {'stream_checks': 400, 'ledger_data_frames': 20000, 'ledger_credit_octets_received': 800,
               'fcs_checked': 20000, 'state_checks': 400, 'slc_runs': 120, 'slc_agreement_checks': 600,
-              'at_lines_checked': 1500, 'pn_exchanges': 600, 'dlc_invariant_evals': 50000},
+              'at_lines_checked': 1500, 'pn_exchanges': 600, 'dlc_invariant_evals': 50000,
+              'refusals': 400, 'dm_frames_received_by_initiator': 300, 'opens_after_refusal': 250,
+              'refuse_state_checks': 1200, 'refuse_exchanges': 400, 'mux_disc_frames_on_wire': 200,
+              'hf_commands_after_refusal': 800},
     'thorough': {'stream_checks': 8000, 'ledger_data_frames': 600000, 'ledger_credit_octets_received': 20000,
                  'fcs_checked': 600000, 'state_checks': 8000, 'slc_runs': 2000, 'slc_agreement_checks': 12000,
-                 'at_lines_checked': 30000, 'pn_exchanges': 12000, 'dlc_invariant_evals': 1000000},
+                 'at_lines_checked': 30000, 'pn_exchanges': 12000, 'dlc_invariant_evals': 1000000,
+                 'refusals': 2000, 'dm_frames_received_by_initiator': 1500, 'opens_after_refusal': 1200,
+                 'refuse_state_checks': 6000, 'refuse_exchanges': 2000, 'mux_disc_frames_on_wire': 1000,
+                 'hf_commands_after_refusal': 3500},
 }
 CASE_TIMEOUT = 600
 
@@ -96,6 +115,8 @@ def plan(tier, seed):
         cases.append({'kind': 'xfer', 'seed': base + i, 'idx': i, 'tier': tier})
     for i in range(288 if q else 1200):
         cases.append({'kind': 'life', 'seed': base + i, 'idx': i, 'tier': tier})
+    for i in range(324 if q else 1620):
+        cases.append({'kind': 'refuse', 'seed': base + i, 'idx': i, 'tier': tier})
     for i in range(576 if q else 2560):
         cases.append({'kind': 'slc', 'seed': base + i, 'idx': i, 'tier': tier})
     for i in range(192 if q else 800):
@@ -528,6 +549,383 @@ async def life(case, r: R):
 
 
 # =============================================================================
+# kind 'refuse': refusal / error paths followed by further use of the SAME multiplexer
+# =============================================================================
+# j = index into the listening channels, u = index into the channels nobody listens on
+REFUSE_SCRIPTS = [
+    ('refuse-then-open', [('refuse', 0), ('open', 0), ('xchg',)]),
+    ('live-refuse-open', [('open', 0), ('refuse', 0), ('xchg',), ('open', 1), ('xchg',)]),
+    ('refusals-in-a-row', [('refuse', 0), ('refuse', 1), ('refuse', 0), ('open', 0), ('xchg',)]),
+    ('refuse-close-refuse-reopen', [('open', 0), ('refuse', 0), ('xchg',), ('close', 0, 'initiator'), ('refuse', 1),
+                                    ('open', 0), ('xchg',)]),
+    ('refuse-between-closes', [('open', 0), ('open', 1), ('refuse', 0), ('xchg',), ('close', 1, 'responder'), ('refuse', 0),
+                               ('xchg',), ('open', 1), ('xchg',)]),
+    ('refuse-last', [('open', 0), ('xchg',), ('refuse', 0)]),
+    ('refuse-only', [('refuse', 0)]),
+    ('second-open-while-opening', [('busy', 'L', 0, 1), ('xchg',), ('open', 1), ('xchg',)]),
+    ('second-open-while-refusal-pending', [('busy', 'U', 0, 0), ('open', 0), ('xchg',), ('open', 1), ('xchg',)]),
+    ('service-appears-after-refusal', [('refuse', 0), ('appear', 0), ('xchg',), ('refuse', 1), ('xchg',)]),
+    ('close-twice-then-refuse', [('open', 0), ('close', 0, 'responder'), ('reclose', 0), ('refuse', 0), ('open', 1), ('xchg',)]),
+    ('random', None),
+]
+REFUSE_ENDINGS = ['shutdown', 'mux-disconnect', 'shutdown-restart']
+
+
+def rfcomm_frames(rg, dev):
+    """[(direction, Frame)] of device dev's RFCOMM channel(s), parsed by vlib.ref_rfcomm."""
+    from vlib import rig as vrig
+    view = rr.analyze(rg.boundary_log, dev, R({}))
+    out = []
+    for _seq, _d, direction, _h, cid, payload in vrig.l2cap_log(rg.boundary_log, dev=dev):
+        if (direction == vrig.H2C and cid in view.channels.values()) or (direction == vrig.C2H and cid in view.channels):
+            f = rr.parse_frame(payload)
+            if f is not None:
+                out.append(('tx' if direction == vrig.H2C else 'rx', f))
+    return out
+
+
+async def refuse(case, r: R):
+    rng = random.Random(case['seed'] ^ 0x4EF)
+    idx = case['idx']
+    rg, ca, cb, geo = await make_rig(case, rng)
+    cm, sm = rng.choice(L2_MTUS), rng.choice(L2_MTUS)
+    s = Session(rg, ca, cm, sm)
+    name, steps = REFUSE_SCRIPTS[idx % len(REFUSE_SCRIPTS)]
+    ending = REFUSE_ENDINGS[(idx // len(REFUSE_SCRIPTS)) % len(REFUSE_ENDINGS)]
+    chans = rng.sample(range(1, 31), 6)
+    listening, unlistened = chans[:3], chans[3:]
+    if rng.random() < 0.3 and 30 not in chans:
+        unlistened[0] = 30      # the top of the channel range
+    params = {ch: dlc_params(rng, rng.randrange(10 ** 6), 0) for ch in listening + unlistened}
+    for ch in listening:
+        s.listen(ch, params[ch][2], params[ch][3])
+    if steps is None:
+        steps, opened = [], set()
+        for _ in range(rng.randint(4, 9)):
+            kind = rng.choice(['refuse', 'refuse', 'open', 'close', 'xchg', 'busy'])
+            if kind == 'open' and len(opened) < 3:
+                j = rng.choice([j for j in range(3) if j not in opened])
+                opened.add(j)
+                steps.append(('open', j))
+            elif kind == 'close' and opened:
+                j = rng.choice(sorted(opened))
+                opened.discard(j)
+                steps.append(('close', j, rng.choice(['initiator', 'responder'])))
+            elif kind == 'busy' and len(opened) < 2:
+                a, b = rng.sample([j for j in range(3) if j not in opened], 2)
+                which = rng.choice('LU')
+                steps.append(('busy', which, a if which == 'L' else rng.randrange(3), b))
+                if which == 'L':
+                    opened.add(a)
+            elif kind == 'xchg':
+                steps.append(('xchg',))
+            else:
+                steps.append(('refuse', rng.randrange(3)))
+        steps.append(('refuse', rng.randrange(3)))
+        for j in range(3):
+            if j not in opened:
+                steps.append(('open', j))
+                break
+        steps.append(('xchg',))
+    await s.start()
+    muxes = [(s.mux, s.smux)]
+    live = {}                 # channel -> (initiator DLC, responder DLC)
+    closed = {}               # channel -> last closed pair
+    history = {'refusals': 0, 'last': 'start'}
+    detail = lambda: f'script {name} steps {steps} ending {ending} mtus {cm}/{sm}'     # noqa: E731
+
+    def phase():
+        return 'after-refusal' if history['refusals'] else 'no-refusal-yet'
+
+    async def try_open(ch):
+        """('ok', pair) | ('raised', exception) | ('hang', None)"""
+        p = params[ch]
+        before = len(s.accepted.get(ch, []))
+        try:
+            how, val = await vloop.vwait(guarded(s.mux.open_dlc(ch, max_frame_size=p[0], initial_credits=p[1])))
+        except vloop.Hang:
+            return 'hang', None
+        await rg.quiesce()
+        if how == 'raised':
+            return 'raised', val
+        buf = bytearray()
+        s.sinks[id(val)] = buf
+        val.sink = buf.extend
+        acc = s.accepted.get(ch, [])
+        return 'ok', (val, acc[-1] if len(acc) > before else None)
+
+    def check_states(after, suffix):
+        ok = compare_state(r, s, f'{after}; {detail()}', suffix, {ch << 1 for ch in live})
+        # model, not only agreement: between operations both multiplexers are CONNECTED
+        r.ev('oracle_evals')
+        r.ev('refuse_state_checks')
+        for side, m in (('initiator', s.mux), ('responder', s.smux)):
+            if m is None or m.state.name != 'CONNECTED':
+                r.bad(f'state/multiplexer-not-connected/{suffix}/{side}',
+                      f'after {after} the {side} multiplexer is {m.state.name if m else None}; {detail()}')
+                ok = False
+        return ok
+
+    async def exchange_all(tagbase, suffix):
+        for n_ch, ch in enumerate(sorted(live)):
+            cd, sd = live[ch]
+            n = rng.choice([1, 30, 700, 5000])
+            a, b = make_data(tagbase + 2 * n_ch + 1, 0, n), make_data(tagbase + 2 * n_ch + 2, 0, n)
+            bc, bs = s.sinks[id(cd)], s.sinks[id(sd)]
+            c0, s0 = len(bc), len(bs)
+            cd.write(a)
+            sd.write(b)
+
+            async def w():
+                while len(bs) < s0 + n or len(bc) < c0 + n:
+                    await asyncio.sleep(0.01)
+            r.ev('stream_checks', 2)
+            r.ev('refuse_exchanges')
+            r.ev('oracle_evals', 2)
+            try:
+                await vloop.vwait(w(), 60)
+            except vloop.Hang:
+                r.bad(f'rfcomm/progress/stalled/{suffix}',
+                      f'exchange of {n} octets each way on channel {ch} did not finish ({len(bs) - s0}/{len(bc) - c0} '
+                      f'arrived; initiator tx_credits={cd.tx_credits}, responder tx_credits={sd.tx_credits}); {detail()}')
+                continue
+            if bytes(bs[s0:]) != a or bytes(bc[c0:]) != b:
+                r.bad(f'rfcomm/stream/corrupt/{suffix}', f'exchange on channel {ch} differs; {detail()}')
+        await rg.quiesce()
+
+    def register(ch, pair, suffix):
+        cd, sd = pair
+        if sd is None:
+            r.bad(f'state/open-not-seen-by-responder/{suffix}',
+                  f'open_dlc({ch}) returned {cd} but the responder\'s acceptor was not called; {detail()}')
+            return False
+        live[ch] = pair
+        return True
+
+    aborted = False
+    for pos, st in enumerate(steps):
+        op = st[0]
+        r.ev(f'refuse_step_{op}')
+        if op == 'open' or op == 'appear':
+            if op == 'appear':
+                ch = unlistened[st[1]]
+                s.listen(ch, params[ch][2], params[ch][3])
+                suffix = 'open-of-channel-refused-before'
+            else:
+                ch = listening[st[1]]
+                if ch in live:
+                    continue
+                suffix = f'open/{phase()}'
+                if closed.get(ch):
+                    params[ch] = dlc_params(rng, rng.randrange(10 ** 6), 0)
+                    s.relisten(ch, params[ch][2], params[ch][3])
+            how, val = await try_open(ch)
+            r.ev('oracle_evals')
+            if history['refusals']:
+                r.ev('opens_after_refusal')
+            if how == 'hang':
+                r.bad(f'rfcomm/setup/open-dlc-hang/{suffix}', f'open_dlc({ch}) pending at T_v (step {pos}); {detail()}')
+                aborted = True
+                break
+            if how == 'raised':
+                r.bad(f'rfcomm/setup/open-dlc-raised/{suffix}',
+                      f'open_dlc({ch}) to a listening channel raised {type(val).__name__}: {val} (step {pos}, previous step '
+                      f'{history["last"]}); initiator multiplexer {s.mux.state.name}, responder {s.smux.state.name}; {detail()}')
+            elif register(ch, val, suffix):
+                if op == 'appear':
+                    unlistened[st[1]] = next(c for c in range(1, 31) if c not in chans and c not in live)
+                    params[unlistened[st[1]]] = params[ch]
+                    listening.append(ch)
+            check_states(f'step {pos} {st} (open_dlc({ch}) {how})', suffix)
+        elif op == 'refuse':
+            ch = unlistened[st[1]]
+            n_dm = sum(1 for d, f in rfcomm_frames(rg, 0) if d == 'rx' and f.type == rr.DM)
+            how, val = await try_open(ch)
+            r.ev('refusals')
+            r.ev('oracle_evals', 3)
+            suffix = 'refused-open' + ('/with-live-dlcs' if live else '')
+            if how == 'hang':
+                r.bad(f'rfcomm/refusal/open-dlc-hang{"/with-live-dlcs" if live else ""}',
+                      f'open_dlc({ch}) to a channel nobody listens on is still pending at T_v; {detail()}')
+                aborted = True
+                break
+            if how == 'ok':
+                r.bad('rfcomm/refusal/open-succeeded-without-listener',
+                      f'open_dlc({ch}) returned {val[0]} although nobody listens on channel {ch}; {detail()}')
+            else:
+                r.ev(f'refusal_raised_{type(val).__name__}')
+            n_dm2 = sum(1 for d, f in rfcomm_frames(rg, 0) if d == 'rx' and f.type == rr.DM)
+            r.ev('dm_frames_received_by_initiator', n_dm2 - n_dm)
+            for side, m in (('initiator', s.mux), ('responder', s.smux)):
+                if (ch << 1) in m.dlcs:
+                    r.bad(f'state/refused-dlci-in-table/{side}',
+                          f'after the refused open of channel {ch} the {side} lists DLCI {ch << 1}: {table(m)}; {detail()}')
+            history['refusals'] += 1
+            check_states(f'step {pos}: refused open_dlc({ch}) ({how})', suffix)
+        elif op == 'busy':
+            # a second open_dlc while one is in flight: it may be refused by the API or served later, but
+            # both calls must end, the in-flight one must get its normal outcome, and the multiplexer stays usable
+            which, a, b = st[1], st[2], st[3]
+            ch_a = listening[a] if which == 'L' else unlistened[a]
+            ch_b = listening[b]
+            if ch_a in live or ch_b in live or ch_a == ch_b:
+                continue
+            pa, pb = params[ch_a], params[ch_b]
+            before_a, before_b = len(s.accepted.get(ch_a, [])), len(s.accepted.get(ch_b, []))
+            t1 = asyncio.ensure_future(guarded(s.mux.open_dlc(ch_a, max_frame_size=pa[0], initial_credits=pa[1])))
+            for _ in range(rng.choice([1, 1, 2, 4])):
+                await asyncio.sleep(0)
+            t2 = asyncio.ensure_future(guarded(s.mux.open_dlc(ch_b, max_frame_size=pb[0], initial_credits=pb[1])))
+            r.ev('oracle_evals', 2)
+            suffix = 'second-open-while-' + ('opening' if which == 'L' else 'refusal-pending')
+            try:
+                res = await vloop.vwait(asyncio.gather(t1, t2))
+            except vloop.Hang:
+                r.bad(f'rfcomm/setup/open-dlc-hang/{suffix}',
+                      f'open_dlc({ch_a}) done={t1.done()} / open_dlc({ch_b}) done={t2.done()} at T_v; {detail()}')
+                aborted = True
+                break
+            await rg.quiesce()
+            (h1, v1), (h2, v2) = res
+            r.ev(f'second_open_{"refused-by-api" if h2 == "raised" else "served"}')
+            for chx, hx, vx, bx in ((ch_a, h1, v1, before_a), (ch_b, h2, v2, before_b)):
+                if hx == 'ok':
+                    buf = bytearray()
+                    s.sinks[id(vx)] = buf
+                    vx.sink = buf.extend
+                    acc = s.accepted.get(chx, [])
+                    if chx in unlistened:
+                        r.bad('rfcomm/refusal/open-succeeded-without-listener', f'open_dlc({chx}) returned {vx}; {detail()}')
+                    else:
+                        register(chx, (vx, acc[-1] if len(acc) > bx else None), suffix)
+            if which == 'L' and h1 != 'ok':
+                r.bad(f'rfcomm/setup/open-dlc-raised/{suffix}',
+                      f'the in-flight open_dlc({ch_a}) raised {type(v1).__name__}: {v1} after a second open_dlc was '
+                      f'attempted ({h2}: {v2}); {detail()}')
+            if which == 'U':
+                r.ev('refusals')
+                if h1 == 'raised':
+                    history['refusals'] += 1
+            check_states(f'step {pos} {st}: first open {h1}, second open {h2}', suffix)
+        elif op == 'close':
+            ch = listening[st[1]]
+            if ch not in live:
+                continue
+            by = st[2]
+            end = live[ch][0 if by == 'initiator' else 1]
+            try:
+                how, val = await vloop.vwait(guarded(end.disconnect()))
+            except vloop.Hang:
+                r.bad(f'rfcomm/teardown/dlc-disconnect-hang/by-{by}', f'DLC.disconnect pending at T_v (channel {ch}); {detail()}')
+                aborted = True
+                break
+            if how == 'raised':
+                r.bad(f'rfcomm/teardown/dlc-disconnect-raised/by-{by}', f'{type(val).__name__}: {val}; {detail()}')
+            await rg.quiesce()
+            closed[ch] = live.pop(ch)
+            check_states(f'step {pos}: channel {ch} closed by the {by}', f'after-dlc-close/by-{by}/{phase()}')
+        elif op == 'reclose':
+            ch = listening[st[1]]
+            if ch not in closed:
+                continue
+            # disconnect() of a DLC that is already closed: an error (or a no-op), never a hang, and no effect on the rest
+            for side, end in zip(('initiator', 'responder'), closed[ch]):
+                r.ev('oracle_evals')
+                try:
+                    how, val = await vloop.vwait(guarded(end.disconnect()), 60)
+                    r.ev(f'reclose_{how}')
+                except vloop.Hang:
+                    r.bad(f'rfcomm/teardown/dlc-disconnect-hang/already-closed/{side}',
+                          f'disconnect() of the closed {end} pending after 60 virtual s; {detail()}')
+            await rg.quiesce()
+            check_states(f'step {pos}: disconnect() of the already closed channel {ch}', 'after-disconnect-of-closed-dlc')
+        elif op == 'xchg':
+            await exchange_all(20 * pos, f'exchange/{phase()}')
+        history['last'] = st
+    if aborted:
+        r.evals()
+        return
+    pairs = [live[ch] for ch in sorted(live)]
+    wire_and_counters(r, rg, pairs, f'after the {name} script')
+    # ---- ending: orderly teardown of a multiplexer whose last operations included refusals -----
+    r.ev(f'refuse_ending_{ending}')
+    r.ev('oracle_evals', 2)
+    last_was_refusal = history['last'][0] == 'refuse'
+    suffix = ending + ('/last-step-refusal' if last_was_refusal else '')
+    try:
+        if ending == 'mux-disconnect':
+            how, val = await vloop.vwait(guarded(s.mux.disconnect()))
+        else:
+            how, val = await vloop.vwait(guarded(s.client.shutdown()))
+        if how == 'raised':
+            r.bad(f'rfcomm/teardown/{ending}-raised', f'{type(val).__name__}: {val}; {detail()}')
+        await rg.quiesce()
+        compare_state(r, s, f'{ending}; {detail()}', f'after-{suffix}')
+        for side, m in (('initiator', muxes[0][0]), ('responder', muxes[0][1])):
+            r.ev('refuse_state_checks')
+            if m.state.name != 'DISCONNECTED':
+                r.bad(f'state/multiplexer-not-disconnected/after-{suffix}/{side}',
+                      f'after {ending} the {side} multiplexer is {m.state.name}; {detail()}')
+        discs = [d for d, f in rfcomm_frames(rg, 0) if f.type == rr.DISC and f.dlci == 0]
+        r.ev('mux_disc_frames_on_wire', len(discs))
+        if discs != ['tx']:
+            r.bad(f'rfcomm/teardown/no-disc-on-wire/after-{suffix}',
+                  f'DISC frames on DLCI 0 seen at the initiator: {discs} (expected exactly one, sent by it); {detail()}')
+        if ending == 'mux-disconnect':
+            await vloop.vwait(guarded(s.client.shutdown()))
+            await rg.quiesce()
+    except vloop.Hang:
+        r.bad(f'rfcomm/teardown/{ending}-hang', f'{ending} pending at T_v; {detail()}')
+        r.evals()
+        return
+    if ending == 'shutdown-restart':
+        # a new multiplexer on the same ACL connection: the old one's refusals must not leak into it
+        from bumble import rfcomm
+        s.client = rfcomm.Client(ca, l2cap_mtu=cm)
+        r.ev('oracle_evals', 2)
+        try:
+            how, val = await vloop.vwait(guarded(s.client.start()))
+        except vloop.Hang:
+            r.bad('rfcomm/setup/multiplexer-connect-hang/after-shutdown', f'second Client.start pending at T_v; {detail()}')
+            r.evals()
+            return
+        if how == 'raised':
+            r.bad('rfcomm/setup/multiplexer-connect-raised/after-shutdown', f'{type(val).__name__}: {val}; {detail()}')
+        else:
+            s.mux = val
+            await rg.quiesce()
+            live.clear()
+            history['refusals'] = 0
+            ch = listening[0]
+            h1, v1 = await try_open(unlistened[0])
+            r.ev('refusals')
+            if h1 != 'raised':
+                r.bad('rfcomm/refusal/open-dlc-hang' if h1 == 'hang' else 'rfcomm/refusal/open-succeeded-without-listener',
+                      f'on the second multiplexer open_dlc({unlistened[0]}) -> {h1}; {detail()}')
+            else:
+                history['refusals'] += 1
+            h2, v2 = await try_open(ch)
+            r.ev('opens_after_refusal')
+            if h2 != 'ok':
+                r.bad(f'rfcomm/setup/open-dlc-{"hang" if h2 == "hang" else "raised"}/second-multiplexer',
+                      f'open_dlc({ch}) on the second multiplexer of the connection -> {h2} {v2!r}; {detail()}')
+            elif register(ch, v2, 'second-multiplexer'):
+                check_states('refusal and open on the second multiplexer', 'second-multiplexer')
+                await exchange_all(900, 'exchange/second-multiplexer')
+                wire_and_counters(r, rg, [live[ch]], 'second multiplexer')
+            await vloop.vwait(guarded(s.client.shutdown()))
+            await rg.quiesce()
+            compare_state(r, s, f'second shutdown; {detail()}', 'after-shutdown/second-multiplexer')
+    for where, e in rg.exceptions:
+        r.bad('rfcomm/exception-in-stack', f'{where}: {e}; {detail()}')
+    r.sig('refuse', name, ending, tuple(steps))
+    r.sched.add(rg.schedule_signature)
+    r.evals()
+    r.sample = {'kind': 'refuse', 'script': name, 'steps': [list(x) for x in steps], 'ending': ending,
+                'listening': listening, 'unlistened': unlistened, **geo}
+
+
+# =============================================================================
 # HFP: tables written down from the Hands-Free Profile (not taken from bumble.hfp)
 # =============================================================================
 HF_BITS = {'EC_NR': 0x001, 'THREE_WAY': 0x002, 'CLI': 0x004, 'VR': 0x008, 'VOLUME': 0x010, 'ECS': 0x020, 'ECC': 0x040,
@@ -694,6 +1092,57 @@ async def hfp_link(case, rng, r):
     return rg, s, cd, sd, {'l2cap_mtu': (cm, sm), 'n1c_kc_n1s_ks': p, **geo}
 
 
+# commands the HF sends once the SLC is up: (line, refused?) — 'refused' is what the Hands-Free Profile / 3GPP 27.007
+# say about the line itself (unknown command, operation or index out of every range), not what bumble answers
+AFTER_SLC_REFUSED = ['AT+XQZV=1', 'AT+CHLD=7', 'AT+CHLD=9', 'AT+BIEV=9,1', 'AT+QWERTY', 'AT+CHLD=18']
+AFTER_SLC_ACCEPTED = ['AT+CHUP', 'AT+VGS=7', 'AT+CLCC', 'AT+CMEE=1', 'AT+VGM=3', 'ATA', 'AT+CMEE=0', 'AT+CCWA=1', 'AT+CLIP=1',
+                      'AT+BVRA=0']
+
+
+async def after_slc_commands(r: R, rng, rg, hf, ag, mon: AtMonitor, detail: str):
+    """Error final codes followed by the next command on the SAME HfProtocol / AgProtocol pair: a refused command
+    raises at the HF and leaves nothing behind; the command after it gets its own answer."""
+    n = rng.randint(3, 6)
+    script = []
+    for i in range(n):
+        refused = (i % 2 == 0) if rng.random() < 0.7 else rng.random() < 0.5
+        script.append((rng.choice(AFTER_SLC_REFUSED if refused else AFTER_SLC_ACCEPTED), refused))
+    script.append((rng.choice(AFTER_SLC_ACCEPTED), False))
+    prev = 'slc'
+    unsolicited0 = hf.unsolicited_queue.qsize()
+    for line, refused in script:
+        g0 = len(mon.groups())
+        r.ev('hf_commands_after_slc')
+        r.ev('hf_commands_after_refusal' if prev == 'refused' else 'hf_commands_after_ok')
+        r.ev('oracle_evals', 2)
+        cls = 'refused-command' if refused else 'accepted-command'
+        try:
+            how, val = await vloop.vwait(guarded(hf.execute_command(line)))
+        except vloop.Hang:
+            r.bad(f'at/hf-command-hang/{cls}/after-{prev}', f'HfProtocol.execute_command({line!r}) pending at T_v; {detail}')
+            return
+        await rg.quiesce()
+        answered = [t for g in mon.groups()[g0:] for t in g[1]]
+        what = 'ok' if how == 'ok' else type(val).__name__
+        if how == 'raised' and isinstance(val, asyncio.TimeoutError):
+            r.bad(f'at/hf-command-unanswered/{cls}/after-{prev}',
+                  f'execute_command({line!r}) timed out; the AG wrote {answered} for it; {detail}')
+        elif refused and how == 'ok':
+            r.bad(f'at/refused-command-reported-ok/after-{prev}',
+                  f'execute_command({line!r}) returned normally; the AG wrote {answered}; {detail}')
+        elif not refused and how == 'raised':
+            r.bad(f'at/accepted-command-raised/after-{prev}',
+                  f'execute_command({line!r}) raised {what}: {val}; the AG wrote {answered} (previous command was {prev}); '
+                  f'{detail}')
+        if hf.pending_command is not None or not hf.response_queue.empty() or hf.unsolicited_queue.qsize() != unsolicited0:
+            r.bad(f'at/hf-state-left-behind/after-{cls}',
+                  f'after execute_command({line!r}) -> {what}: pending_command={hf.pending_command!r}, '
+                  f'{hf.response_queue.qsize()} result codes left in the response queue, '
+                  f'{hf.unsolicited_queue.qsize() - unsolicited0} put in the unsolicited queue (the AG sent nothing '
+                  f'unsolicited); {detail}')
+        prev = 'refused' if refused else 'ok'
+
+
 async def slc(case, r: R):
     from bumble import hfp
     rng = random.Random(case['seed'] ^ 0x51C)
@@ -776,6 +1225,8 @@ async def slc(case, r: R):
         agree([o.value for o in hf.supported_ag_call_hold_operations] == exp_chld, 'slc/disagree/call-hold',
               f'call hold operations: expected {exp_chld}, HF learnt {[o.value for o in hf.supported_ag_call_hold_operations]}')
         r.ev('ag_slc_complete_emitted_%s' % ('once' if len(slc_events) == 1 else 'never' if not slc_events else 'repeatedly'))
+    if outcome == 'ok':
+        await after_slc_commands(r, rng, rg, hf, ag, mon, detail)
     # one final result code per command line on the AG's DLC
     for lines, rsps in mon.groups():
         n = sum(1 for t in rsps if is_final(t))
@@ -1039,7 +1490,7 @@ async def hfraw(case, r: R):
     r.sample = {'kind': 'hfraw', 'cfg': cfg, 'unsolicited_before': junk, 'commands_seen': seen[:12]}
 
 
-KINDS = {'xfer': xfer, 'life': life, 'slc': slc, 'agraw': agraw, 'hfraw': hfraw}
+KINDS = {'xfer': xfer, 'life': life, 'refuse': refuse, 'slc': slc, 'agraw': agraw, 'hfraw': hfraw}
 
 
 async def run_case(case, r: R):
@@ -1058,7 +1509,12 @@ LEVEL_TEXT = ('Stream equality at every DLC sink, an independent RFCOMM wire che
               'indicator, credit ledger from the PN exchange and credit octets, information field against the peer N1 and '
               'L2CAP MTU) over both devices of ~160 (quick) / ~3200 (thorough) generated transfers that walk all 49 N1 pairs, '
               'all credit pairs 1..7 and the L2CAP MTU grid with 1-4 DLCs and up to 10^5 octets each way; DLC-table / state '
-              'agreement after every step of enumerated open / close / reopen / shutdown orders; initiate_slc against '
+              'agreement after every step of enumerated open / close / reopen / shutdown orders; ~320 (quick) / ~1600 (thorough) '
+              'refusal histories (DM-refused open_dlc once / repeatedly / between live DLCs and closes, overlapping open_dlc '
+              'calls, repeated disconnect) each followed by further opens, two-way exchanges, the credit cross-check and one '
+              'of three orderly teardowns, with both multiplexers required to be CONNECTED between operations and '
+              'DISCONNECTED after DISC; 3-7 HF commands after every SLC alternating refused and accepted ones; '
+              'initiate_slc against '
               'AgProtocol for all 64 settings of the six feature bits it branches on x boundary lists, with the negotiated '
               'values predicted from the configurations by the check; one-final-result-code monitor on the AG DLC during '
               'every SLC and for ~130 hand-written command lines (every command, nominal / one more / one fewer / empty '
